@@ -44,6 +44,10 @@ def run(ctx):
   oco_fd(ctx)
   unfoldings(ctx)
   thin_svd(ctx)
+  # the sketch refresh of Distributed Shampoo is configured with the optimizer's own decay / ridge / padding (a dropped
+  # `decay=beta2` leaves the sketch undiscounted)
+  from . import C10
+  C10.rank_flow(ctx)
 
 
 def thin_svd(ctx):
@@ -168,6 +172,24 @@ def ds_fd(ctx):
     a = packs[0].args
     P = lambda nm: sym('param', fi.short, nm)
     tag = f'[rel={rel}]'
+    # padding masks: an index i is active iff i < padding_start (the statistic is padded with an IDENTITY block, so a mask
+    # that lets index padding_start through feeds a spurious unit direction into every SVD)
+    masks = set()
+    for sc_ in ev.scopes.values():
+      for v_ in sc_.vars.values():
+        for x in walk(v_):
+          if x.op == 'cmp' and len(x.args) == 3 and x.args[0] in ('<', '<=', '>', '>='):
+            l_, r_ = strip_casts(x.args[1]), strip_casts(x.args[2])
+            if (l_ is P('padding_start') and is_ext_call(r_, 'jax.numpy.arange')) or (r_ is P('padding_start') and is_ext_call(l_, 'jax.numpy.arange')):
+              masks.add(x)
+    ctx.need('C09.R3', len(masks), 2, 'padding masks in _fd_update_root')
+    for x in masks:
+      ar = [y for y in walk(x) if is_ext_call(y, 'jax.numpy.arange')][0]
+      env_m = {'idx': ar, 'ps': P('padding_start')}
+      okm = cmpr.same(x, spec_term(ev, 'idx < ps', env_m)) or cmpr.same(x, spec_term(ev, 'idx >= ps', env_m))
+      ctx.ob('C09.R3', fi.short, f'padding mask {cmpr.fmt(x)[:60]} {tag}', okm,
+             f'padding masks must be `arange(n) < padding_start` (active) or `arange(n) >= padding_start` (padding); got `{show(x, maxdepth=4)[:120]}`',
+             ctx.loc(fi), sample='padding_start > arange(n)')
     xe, xt = sp.Symbol('x_eigvals'), sp.Symbol('x_tail')
 
     def gleaf(t):
